@@ -980,6 +980,9 @@ class Lib:
 
     def dict_method(self, interp, ref, meth, args, kwargs):
         d = ref.content
+        if meth in ("keys", "values", "items"):
+            from .interp import dict_order_observed
+            dict_order_observed(ref, f"dict.{meth}()")
         if meth == "keys":
             return new_list(list(d.keys()))
         if meth == "values":
